@@ -9,7 +9,7 @@
 From Coq Require Import List NArith PArith Bool Arith Lia FMapPositive.
 From OxiVerif Require Import DD.Table DD.TableProofs DD.Sem DD.Build DD.BuildProofs
   DD.Apply DD.ApplyProofs DD.ApplyEvalProofs DD.ApplyExamples DD.Quant DD.QuantSpecProofs
-  DD.QuantLemmas DD.QuantProofs DD.SubstProofs DD.QuantTopProofs.
+  DD.QuantLemmas DD.QuantProofs DD.SubstProofs DD.QuantTopProofs DD.QuantHistory.
 Import ListNotations.
 
 Definition no_subst : N -> option (list (nat * ref)) := fun _ => None.
@@ -132,3 +132,23 @@ Proof.
   split; [apply qcacheok_empty|]. split; [repeat constructor; intros []|].
   split; [|reflexivity]. intros v r [E|[]]. inversion E; subst. split; [vm_compute; lia | eexists; reflexivity].
 Qed.
+
+(** a history on [ex_snap] with the association-list cache: two substitution
+    objects (x0 := not x0 under id 0, x0 := x0 under id 1) applied alternately
+    and repeatedly, a quantification in between, the cache cleared, the first
+    object applied again: always the same results *)
+Example ex_history :
+  match qrun gt_id acache ac_get ac_add [] (mkQ acache ex_snap [] [] 0%N)
+          [QONewSubst [(0, RN 2)]; QONewSubst [(0, RN 1)];
+           QOSubst (RN 3) 0%N; QOSubst (RN 3) 1%N; QOSubst (RN 3) 0%N;
+           QOQuant QExists (RN 3) (RN 1);
+           QOSubst (RN 3) 1%N; QOClear; QOSubst (RN 3) 0%N] with
+  | Some (st, rs) =>
+    rs = [None; None; Some (RN 5); Some (RN 3); Some (RN 5); Some (RT 1%N); Some (RN 3); None; Some (RN 5)] /\
+    q_next acache st = 2%N /\ q_c acache st <> []
+  | None => False
+  end.
+Proof. vm_compute. repeat split; try reflexivity. discriminate. Qed.
+
+Example ex_history_inv : QInv acache ac_get (mkQ acache ex_snap [] [] 0%N).
+Proof. apply qinv_init; [reflexivity | exact ex_snap_bdd_ok]. Qed.
